@@ -43,6 +43,18 @@ Theorem state_write_operation_order : forall s d,
 Proof. exact call_operation_order. Qed.
 Print Assumptions state_write_operation_order.
 
+(** C07 "transient failures ... of the state write are retried until they
+    succeed", over the real store's directory protocol: the syncer's retry loop
+    ([retry_write]: the same state again until OK) ends after at most one attempt
+    more than there were failed attempts - each failing at any operation - with
+    the state committed and durable.  This discharges, for the directory-backed
+    store, the assumption under which C07's main model treats the state store
+    (an attempt without a fault succeeds). *)
+Theorem retry_loop_commits : forall faults s d,
+  fst (retry_write s d faults) = done_dir d /\ (snd (retry_write s d faults) <= S (length faults))%nat.
+Proof. exact retry_commits. Qed.
+Print Assumptions retry_loop_commits.
+
 (** once a call returned OK, every read returns its state as long as no
     further call is attempted, across any number of power cuts *)
 Theorem committed_state_survives_power_cuts : forall s d f log es,
